@@ -336,25 +336,41 @@ Theorem C04_initial_send_window_rfc_table : forall p n,
 Proof. exact init_send_window_rfc_table. Qed.
 Print Assumptions C04_initial_send_window_rfc_table.
 
-(** the same function seeds the SendStream-level composition (SendGlue): a stream created with it
-    has exactly that limit, so C04_sender_glue_within_credit bounds it by the class limit until a
-    MAX_STREAM_DATA raises it (C04_sender_glue_limits_advertised). *)
-Theorem C04_sender_glue_initial_window_is_class_limit : forall client sid rsa p cw,
-  fcWindow (SendStream.Model.init sid rsa (init_send_window client sid p) cw) = init_send_window client sid p.
-Proof. reflexivity. Qed.
-Print Assumptions C04_sender_glue_initial_window_is_class_limit.
+(** (SendGlue's streams are created with an arbitrary initial limit [swin >= 0]; instantiating it
+    with [init_send_window] makes C04_sender_glue_within_credit a bound by the class limit until a
+    MAX_STREAM_DATA raises it — [fcWindow (init sid rsa swin cw) = swin] holds by definition.) *)
 
-(** All histories of the connection glue ([cop_ok]: wire values and write sizes are >= 0): every
-    stream stays within the largest limit the peer advertised for its class or in a
-    MAX_STREAM_DATA ([g_lims], computed from the ops alone), all streams together within the
-    largest initial_max_data / MAX_DATA. *)
+(** All histories of the connection glue ([cop_ok]: wire values and write sizes are >= 0), against an
+    OBSERVER that sees only each call and its return value ([ostep]; perspective given): which
+    transport parameters the peer has shown (from the moment they are shown, not from the moment the
+    implementation applies them), for every successfully opened stream — the returned ID tells
+    its class — the largest limit those parameter sets or a MAX_STREAM_DATA gave it, the largest
+    initial_max_data / MAX_DATA; a successful 0-RTT rejection voids streams and connection limit.
+    Every stream stays within the observer's limit for it, all streams together within the
+    observer's connection limit. [cowf]: after a 0-RTT rejection the handshake's parameters arrive
+    before the handshake completes and before a stream is opened (the order connection.go
+    guarantees: handleTransportParameters precedes handleHandshakeComplete). *)
 Theorem C04_connglue_within_peer_limit : forall client ops, Forall cop_ok ops ->
+  cowf client (cg_init client) (mkOS None [] 0 false) ops ->
+  let c := fst (corun client (cg_init client) (mkOS None [] 0 false) ops) in
+  let o := snd (corun client (cg_init client) (mkOS None [] 0 false) ops) in
+  Forall2 (fun s il => cs_id s = fst il /\ 0 <= bytesSent (cs_fc s) <= snd il) (cc_streams c) (o_lims o) /\
+  sumf fSentC (cc_streams c) = bytesSent (cc_conn c) /\ bytesSent (cc_conn c) <= o_clim o.
+Proof. exact connglue_within_observed_limit. Qed.
+Print Assumptions C04_connglue_within_peer_limit.
+
+(** The same bound against the MODEL's own bookkeeping [ghstep] (it reads the model state: which
+    parameters the implementation currently holds / has applied), for all histories without the
+    ordering requirement: a stream never exceeds the limits the implementation has APPLIED to it.
+    This is the invariant the proof of the theorem above goes through; it is not a specification
+    independent of the model. *)
+Theorem C04_connglue_within_applied_limit : forall client ops, Forall cop_ok ops ->
   let c := fst (cgrun (cg_init client) (ConnGlueProofs.mkGh [] 0) ops) in
   let g := snd (cgrun (cg_init client) (ConnGlueProofs.mkGh [] 0) ops) in
   Forall2 (fun s l => 0 <= bytesSent (cs_fc s) <= l) (cc_streams c) (g_lims g) /\
   sumf fSentC (cc_streams c) = bytesSent (cc_conn c) /\ bytesSent (cc_conn c) <= g_clim g.
 Proof. exact connglue_within_peer_limit. Qed.
-Print Assumptions C04_connglue_within_peer_limit.
+Print Assumptions C04_connglue_within_applied_limit.
 
 Example C04_connglue_example :
   Forall cop_ok cg_ex /\
@@ -364,6 +380,14 @@ Example C04_connglue_example :
   g_lims (snd (cgrun (cg_init true) (ConnGlueProofs.mkGh [] 0) cg_ex)) = [150; 151; 152].
 Proof. exact connglue_example. Qed.
 Print Assumptions C04_connglue_example.
+
+(** the same history is well-ordered; the observer's limits for the three streams (IDs 0, 2, 1) *)
+Example C04_connglue_example_observer :
+  cowf true (cg_init true) (mkOS None [] 0 false) cg_ex /\
+  o_lims (snd (corun true (cg_init true) (mkOS None [] 0 false) cg_ex)) = [(0, 150); (2, 151); (1, 152)] /\
+  o_clim (snd (corun true (cg_init true) (mkOS None [] 0 false) cg_ex)) = 5000.
+Proof. exact connglue_example_observer. Qed.
+Print Assumptions C04_connglue_example_observer.
 
 (** one stream's share of a drain: if it still has data while the connection has credit left, it
     stopped EXACTLY at its window; a STREAM_DATA_BLOCKED carries exactly that window (= the offset
